@@ -269,6 +269,14 @@ pub fn atom_from_stream<'a>(
         bit_mask >>= 1;
     }
 
+    // The consensus deserializer accepts length prefixes of at most 6 bytes.
+    if bit_count > 6 {
+        return Err(EvalErr::InternalError(
+            NodePtr::NIL,
+            "bad encoding".to_string(),
+        ));
+    }
+
     let mut size_blob = Bytes::new(Some(BytesFromType::Raw(vec![b])));
     if bit_count > 1 {
         let bin = f.read(bit_count - 1);
